@@ -338,6 +338,12 @@ class Translator:
                 if self.emitting and not self.declared(v.id):
                     raise Unsupported(v, f"local `{v.id}` is possibly unbound here")
                 return t[1], mangle(v.id)
+            if is_opt(t) and isinstance(t[1], tuple) and t[1][0] == "Rec":
+                # `x.attr` / `x.method(…)` for an Optional record: `None.attr` raises AttributeError
+                if self.emitting and not self.declared(v.id):
+                    raise Unsupported(v, f"local `{v.id}` is possibly unbound here")
+                self.raising = True
+                return t[1][1], f"(← Py.unwrapAttr {mangle(v.id)})"
         if isinstance(v, ast.Subscript):
             e = self.ex(v)
             if isinstance(e.ty, tuple) and e.ty[0] == "Rec":
@@ -574,7 +580,10 @@ class Translator:
             # a function / method that is not translated: the spec names the hand-written Lean term that stands for it
             key, obj = None, ""
             if isinstance(f, ast.Name) and (None, f.id) in self.pure.calls:
-                if not self._imported_name(f.id) and not any(isinstance(d, ast.FunctionDef) and d.name == f.id for d in self.module.body):
+                if f.id in self.SPEC_BUILTINS:
+                    if self._module_binds(f.id):
+                        raise Unsupported(n, f"`{f.id}` is re-bound in this module (not the builtin)")
+                elif not self._imported_name(f.id) and not any(isinstance(d, ast.FunctionDef) and d.name == f.id for d in self.module.body):
                     raise Unsupported(n, f"`{f.id}` is neither imported nor defined at module level")
                 if f.id in self.vt:
                     raise Unsupported(n, f"`{f.id}` is also a local")
@@ -596,6 +605,9 @@ class Translator:
                     self.raising = True
                 return E(tpl.format(*args, obj=obj), ret)
         raise Unsupported(n, "call outside the subset")
+
+    # builtins whose meaning on the abstract records of a `PureSpec` the spec has to name (`calls[(None, "isinstance")]`)
+    SPEC_BUILTINS = {"isinstance"}
 
     def _imported_from(self, module, name):
         for st in self.module.body:
@@ -675,6 +687,8 @@ class Translator:
                         self._infer_assign(st.targets[0], st.value, st)
                     elif isinstance(st, ast.AnnAssign) and st.value is not None and isinstance(st.target, ast.Name):
                         self._infer_assign(st.target, st.value, st)        # the annotation is not consulted
+                    elif isinstance(st, ast.NamedExpr) and isinstance(st.target, ast.Name):
+                        self._infer_assign(st.target, st.value, st)
                     elif isinstance(st, ast.AugAssign) and isinstance(st.target, ast.Name):
                         v = ast.BinOp(left=ast.Name(id=st.target.id, ctx=ast.Load()), op=st.op, right=st.value)
                         ast.copy_location(v, st)
@@ -767,9 +781,65 @@ class Translator:
             return self._callback(st, v, ind)
         if isinstance(v, ast.Call) and isinstance(v.func, ast.Name) and v.func.id == "odxraise":
             return self._odxraise(st, v, ind)
+        if isinstance(v, ast.Call) and isinstance(v.func, ast.Name) and v.func.id == "odxassert":
+            return self._odxassert(st, v, ind)
+        if isinstance(v, ast.Call) and isinstance(v.func, ast.Attribute) and isinstance(v.func.value, ast.Name) \
+                and v.func.value.id == "warnings" and v.func.attr == "warn":
+            return self._warn(st, v, ind)
         raise Unsupported(st, "expression statement outside the subset")
 
-    ODX_ERRORS = {"OdxError": "odxError", "EncodeError": "encodeError", "DecodeError": "decodeError"}
+    def _module_binds(self, name):
+        """is `name` bound at module level (import, def, class, assignment)? then it is not the builtin of that name"""
+        for st in self.module.body:
+            if isinstance(st, (ast.Import, ast.ImportFrom)) and any((a.asname or a.name.split(".")[0]) == name for a in st.names):
+                return True
+            if isinstance(st, (ast.FunctionDef, ast.ClassDef)) and st.name == name:
+                return True
+            if isinstance(st, (ast.Assign, ast.AnnAssign, ast.AugAssign)):
+                tgts = st.targets if isinstance(st, ast.Assign) else [st.target]
+                if any(isinstance(t, ast.Name) and t.id == name for tg in tgts for t in ast.walk(tg)):
+                    return True
+        return False
+
+    def _odxassert(self, st, call, ind):
+        """`odxassert(cond[, msg])` in STRICT MODE: `if not cond: raise OdxError(msg)` (exceptions.py); the condition is evaluated first"""
+        if not self._imported_name("odxassert"):
+            raise Unsupported(st, "`odxassert` is not imported in this module")
+        kw = {k.arg: k.value for k in call.keywords}
+        if not 1 <= len(call.args) <= 2 or set(kw) - {"message"} or (len(call.args) == 2 and kw):
+            raise Unsupported(st, "odxassert(condition[, message]) (an error_type is outside the subset)")
+        msg = call.args[1] if len(call.args) == 2 else kw.get("message")
+        if msg is not None:
+            self._message(msg)
+        c = self.ex(call.args[0])
+        if c.ty not in (BOOL, None):
+            raise Unsupported(st, "odxassert on a non-boolean (truthiness is outside the subset)")
+        note = "`odxassert` is rendered for strict mode (exceptions.strict_mode = True): a false condition raises OdxError"
+        if note not in self.notes:
+            self.notes.append(note)
+        self.emit(ind, f"if ¬ {c.code} then throw Py.Err.odxError", st)
+        return False
+
+    def _warn(self, st, call, ind):
+        """`warnings.warn(msg, Category, stacklevel=k)`: no effect on the values computed (under the default warning filters a warning
+        is printed / recorded, not raised: an assumption listed in the header); the message has to be harmless to format"""
+        if not any(isinstance(s_, ast.Import) and any(a.name == "warnings" and a.asname is None for a in s_.names) for s_ in self.module.body):
+            raise Unsupported(st, "`warnings` is not the imported standard module")
+        kw = {k.arg: k.value for k in call.keywords}
+        if not 1 <= len(call.args) <= 2 or set(kw) - {"stacklevel", "category"} or None in kw:
+            raise Unsupported(st, "warnings.warn(message[, category][, stacklevel=…])")
+        self._message(call.args[0])
+        for extra in list(call.args[1:]) + [kw[k] for k in kw]:
+            if not isinstance(extra, (ast.Name, ast.Constant)):
+                raise Unsupported(st, "warnings.warn: category / stacklevel must be a name / constant")
+        note = "`warnings.warn(…)` is not rendered (assumption: warnings are not turned into exceptions by the warning filters)"
+        if note not in self.notes:
+            self.notes.append(note)
+        self.emit(ind, "pure ()   -- a warning: no effect on the result", st)
+        return False
+
+    ODX_ERRORS = {"OdxError": "odxError", "EncodeError": "encodeError", "DecodeError": "decodeError", "KeyError": "keyError"}
+    BUILTIN_ERRORS = {"KeyError"}                                          # not imported: must not be shadowed in the module
 
     def _odxraise(self, st, call, ind):
         """`odxraise(msg[, ErrorType])` in STRICT MODE (`exceptions.strict_mode = True`, the default and the mode the models follow):
@@ -789,6 +859,8 @@ class Translator:
         if ety is not None:
             if not (isinstance(ety, ast.Name) and ety.id in self.ODX_ERRORS):
                 raise Unsupported(st, "error type of odxraise outside the subset")
+            if ety.id in self.BUILTIN_ERRORS and self._module_binds(ety.id):
+                raise Unsupported(st, f"`{ety.id}` is re-bound in this module (not the builtin)")
             kind = ety.id
         note = "`odxraise` is rendered for strict mode (exceptions.strict_mode = True): it raises"
         if note not in self.notes:
@@ -877,6 +949,12 @@ class Translator:
         if not self.in_loop:
             raise Unsupported(st, "break outside a loop")
         self.emit(ind, "break", st)
+        return True
+
+    def st_Continue(self, st, ind):
+        if not self.in_loop:
+            raise Unsupported(st, "continue outside a loop")
+        self.emit(ind, "continue", st)
         return True
 
     def _assign_local(self, v, e: E, st, ind, value_node=None, comment=True):
@@ -997,7 +1075,8 @@ class Translator:
                 self.dropped.append(d)
             self.emit(ind, "-- (dropped: a typing assertion)", st)
             return False
-        c = self.ex(st.test)
+        test = self._lift_walrus(st, ind, kw)
+        c = self.ex(test)
         if c.ty != BOOL:
             raise Unsupported(st.test, "condition is not a boolean expression (truthiness is outside the subset)")
         self.emit(ind, f"{kw} {c.code} then", st)
@@ -1012,7 +1091,10 @@ class Translator:
                 # the whole `if … else if …` chain, so such a chain is rendered as a nested `else` block instead
                 em, self.emitting, self.raising = self.emitting, False, False
                 try:
-                    self.ex(st.orelse[0].test)
+                    if any(isinstance(x, ast.NamedExpr) for x in ast.walk(st.orelse[0].test)):
+                        self.raising = True                               # an assignment in the `elif` test: nested `else` block
+                    else:
+                        self.ex(st.orelse[0].test)
                 finally:
                     self.emitting = em
                 chain = not self.raising
@@ -1036,10 +1118,43 @@ class Translator:
         self.alias = merged
         return t1 and t2
 
+    def _walrus_of(self, test):
+        """the assignment expression of an `if` test, which must have the form `(x := e) <cmp> …`: the walrus is then the first thing
+        the test evaluates, so `x = e` followed by `if x <cmp> …` is the same program"""
+        walrus = [x for x in ast.walk(test) if isinstance(x, ast.NamedExpr)]
+        if not walrus:
+            return None
+        if len(walrus) > 1 or not (isinstance(test, ast.Compare) and test.left is walrus[0] and isinstance(walrus[0].target, ast.Name)):
+            raise Unsupported(test, "assignment expression other than `if (x := e) <cmp> …`")
+        return walrus[0]
+
+    def _lift_walrus(self, st, ind, kw):
+        w = self._walrus_of(st.test)
+        if w is None:
+            return st.test
+        if kw != "if":
+            raise Unsupported(st, "assignment expression in an `elif` test of a flat chain")
+        if self.pure is None:
+            raise Unsupported(st, "assignment expression in a slot method")
+        self.raising = False
+        self._assign_local(w.target.id, self.ex(w.value), st, ind, w.value)
+        self.raising = False
+        new = ast.Compare(left=ast.copy_location(ast.Name(id=w.target.id, ctx=ast.Load()), w), ops=st.test.ops, comparators=st.test.comparators)
+        return ast.copy_location(new, st.test)
+
     # ------------------------------------------------------------------------------------------------ loops (pure functions)
     def _iterable(self, it):
         if isinstance(it, (ast.GeneratorExp, ast.ListComp)):
             return self._comprehension(it)
+        if isinstance(it, ast.Call) and isinstance(it.func, ast.Name) and it.func.id == "reversed" and len(it.args) == 1 and not it.keywords:
+            # `reversed(xs)` of a list, consumed once by a loop / comprehension that does not mutate `xs` (the subset has no list
+            # mutation): the elements from the last to the first
+            if self._module_binds("reversed") or "reversed" in self.vt:
+                raise Unsupported(it, "`reversed` is re-bound (not the builtin)")
+            inner = self._iterable(it.args[0])
+            if inner.ty is None:
+                return E("_", None)
+            return E(f"({inner.code}).reverse", inner.ty)
         e = self.ex(it)
         if e.ty is not None and not is_list(e.ty):
             raise Unsupported(it, "iteration over a non-list")
@@ -1175,9 +1290,11 @@ def _find_class(module, name):
 
 
 def _find_func(scope, name):
-    for n in scope.body:
-        if isinstance(n, ast.FunctionDef) and n.name == name:
-            return n
+    """the binding of `name` at the end of the class / module body: the LAST `def` (typing.overload stubs precede the implementation;
+    a last definition that is itself decorated is rejected by the decorator check of the caller)"""
+    found = [n for n in scope.body if isinstance(n, ast.FunctionDef) and n.name == name]
+    if found:
+        return found[-1]
     raise Unsupported(scope, f"function {name} not found")
 
 
@@ -1618,6 +1735,36 @@ def regenerate_limit(repo, verif):
     return _write(Path(verif) / "lean" / "OdxVerif" / "Gen" / "CompuLimit.lean", render_limit(Path(repo)))
 
 
+_FRAG, _OBJ, _S, _DB, _FRAGDB = ("Rec", "Frag"), ("Rec", "Obj"), ("Rec", "String"), ("Rec", "Db"), ("Rec", "FragDb")
+
+# `OdxLinkDatabase.resolve` / `resolve_lenient`: `self._db` is the model's `Db` (an insertion-ordered association list for the dict of
+# dicts), `dict.get` the model's `dget` (keys: frozen dataclasses / str, compared by value), `isinstance(obj, T)` the model's
+# `Obj.isInst` (class names); `expected_type` is the class name or None. `ref.ref_id` is an opaque `String` (only handed to `get`).
+ODXLINK_SPEC = PureSpec(
+    params={"self": (("Rec", "OdxLinkDatabase"), None), "ref": (("Rec", "Ref"), None), "expected_type": (opt(_S), "expected_type")},
+    binders="(db : Db) (r : Ref) (expected_type : Option String)",
+    attrs={("OdxLinkDatabase", "_db"): ("db", _DB),
+           ("Ref", "ref_docs"): ("r.docs", ("List", _FRAG)),
+           ("Ref", "ref_id"): ("r.refId", _S)},
+    calls={("Db", "get"): ("(dget {obj} {0})", [_FRAG], opt(_FRAGDB), False),
+           ("FragDb", "get"): ("(dget {obj} {0})", [_S], opt(_OBJ), False),
+           (None, "isinstance"): ("(Obj.isInst {0} (some {1}))", [_OBJ, _S], BOOL, False)},
+    open_ns="OdxVerif.OdxLink")
+
+
+def render_odxlink_resolve(repo: Path) -> str:
+    rel = "odxtools/odxlink.py"
+    src = (Path(repo) / rel).read_text()
+    a = translate_pure_function(src, "resolve", ODXLINK_SPEC, "OdxVerif.OdxLink.Gen", ["OdxVerif.Model.OdxLink", "OdxVerif.Model.PyRt"],
+                                rel, cls_name="OdxLinkDatabase")
+    b = translate_pure_function(src, "resolve_lenient", ODXLINK_SPEC, "OdxVerif.OdxLink.Gen", [], rel, cls_name="OdxLinkDatabase")
+    return a + "\n" + b
+
+
+def regenerate_odxlink_resolve(repo, verif):
+    return _write(Path(verif) / "lean" / "OdxVerif" / "Gen" / "OdxLinkResolve.lean", render_odxlink_resolve(Path(repo)))
+
+
 def _write(out: Path, new: str):
     if not out.exists() or out.read_text() != new:
         out.write_text(new)
@@ -1641,8 +1788,8 @@ if __name__ == "__main__":
     repo = Path(sys.argv[1]) if len(sys.argv) > 1 else Path("/repo")
     if len(sys.argv) > 2:
         for regen in (regenerate_isotp, regenerate_staticlen, regenerate_muxkey, regenerate_limit, regenerate_inherit_prio,
-                      regenerate_itemkey):
+                      regenerate_itemkey, regenerate_odxlink_resolve):
             print(regen(repo, Path(sys.argv[2])))
     else:
-        for render in (render_isotp, render_staticlen, render_muxkey, render_limit, render_inherit_prio, render_itemkey):
+        for render in (render_isotp, render_staticlen, render_muxkey, render_limit, render_inherit_prio, render_itemkey, render_odxlink_resolve):
             sys.stdout.write(render(repo))
